@@ -1459,6 +1459,16 @@ fn c17_inner(stats: &mut Stats, dir: &std::path::Path, target: &std::path::Path,
         if rec.events.iter().any(|e| matches!(e, Event::Open { create_new: true, is_dir: false, .. })) {
             stats.count("calls_creating_wal_files", 1);
         }
+        if let (Outcome::Err(ErrKind::Io(e)), true) = (&rec.got, variant != 2 && planted_name.is_none()) {
+            // nothing in these directories stands in the way of the library's own files: an I/O
+            // error can only come from treating a foreign entry as one of them (e.g. opening a
+            // sub-directory or a dangling link as a WAL file)
+            return fail("io-error-caused-by-foreign-entries", format!("step {} {}: {} (foreign entries present: {:?})", i, op.short(), e, foreign.iter().map(|f| f.0.as_str()).collect::<Vec<_>>()));
+        }
+        if matches!(rec.got, Outcome::Err(ErrKind::Io(_))) && run.subject.log.is_none() {
+            // a restart that failed leaves no log to look at
+            return fail("diverged", format!("(seq.rs:{})", line!()));
+        }
         let heavy = is_final || (i >= seed_len && i - seed_len >= leaf.heavy_from) || matches!(rec.got, Outcome::Reopened);
         if heavy {
             check_foreign(dir, &foreign).map_err(|e| ("foreign-entry-changed".to_string(), format!("step {} {}: {}", i, op.short(), e)))?;
